@@ -17,8 +17,13 @@ ASSUMPTIONS = [A_REAL, A_ENGINE, "numpy.append / array model (listed in trusted_
                "monthly tables satisfy valid_monthly (durations in (0,48], peak day inside the month, non-negative totals/peaks): postconditions of split_loads_by_month / find_peak_durations (C07)",
                "single non-leap load year, start_month = 1 (what the manager always passes)"]
 NOT_PROVED = []
-EXPLANATION = "see LEVEL_TEXT"
+EXPLANATION = ("process_month_loads is proved, for every horizon of 1..360 months and all monthly tables (loop invariant on the axis; one step clause per iteration), to append in each iteration of "
+               "the month loop segments (1..5 of them: every combination of peak-day order, present/absent pulses, same-day peaks, peak-retention flag, window moved by the hour-0 guard) whose "
+               "integral is exactly that month's net load cl - hl, up to rate x (placeholder duration of an absent pulse) - the precise content of 'floating-point accuracy' here - and to end "
+               "the iteration at the calendar month end; the monthly tables are replicated year by year. monthdays / first_month_hour / last_month_hour are proved against the cumulative "
+               "non-leap calendar for every month index. On the pinned tree the same-day arm dropped the average segment of a heating-only month and mis-placed a window moved by the hour-0 "
+               "guard (D6 and a second defect, both fixed).")
 LEVEL_TEXT = ("Deductive proof for every horizon 1..360 months and all monthly tables: in every iteration of the month loop the segments appended (1..5 of them, every combination of peak-day "
               "order, present/absent pulses, peak-retention flag) integrate to that month's net load, up to rate x (placeholder duration of an absent pulse) - the exact meaning of 'floating-point "
               "accuracy' here; the breakpoint at the end of the iteration is the calendar month end. Calendar helpers are proved against the non-leap calendar for all months.")
-LEVEL_NOTE = "Trusted: pyvc, z3 (nonlinear real arithmetic), A-REAL, numpy.append model. One recorded finding: a same-day peak on 1 January lasting more than 26 h."
+LEVEL_NOTE = "Trusted: pyvc, z3 (nonlinear real arithmetic), A-REAL, numpy.append model. Two defects of the same-day arm were found by these obligations and repaired."
